@@ -121,4 +121,13 @@ theorem volume_fits (w : World) (root : Path) (ps3 : Bool) (L : Layout) (h : lay
   · rw [F.vol, F.pad]; omega
   · rw [F.vol, F.pad]; omega
 
+/-- **Every directory of an accepted tree has a path-table number**: a tree with more directories
+    than the 16-bit numbering of the path table reaches is refused at open (the table used to stop at
+    65536 entries silently, leaving the remaining directories out of all four tables). -/
+theorem directory_numbers_fit (w : World) (root : Path) (ps3 : Bool) (L : Layout) (h : layoutOf w root ps3 = some L) :
+    L.items.length ≤ 65536 := by
+  have F := Proof.BuildWF.layoutOf_facts w root ps3 L h
+  have : Gen.fs_pathTableItemsLimit = 65536 := rfl
+  rw [← this]; exact F.dirs
+
 end Ps3.Props.C08
